@@ -73,6 +73,7 @@ class ResendRule(BaseRule):
         if isinstance(f, ast.Attribute) and f.attr == "urlopen" and recv is not None and recv.kind == "obj" and recv.val == "pool":
             pool_urlopen = self.m.method(f"{CP}.HTTPConnectionPool", "urlopen")
             args = self._bind_call_args(node, pos, kw, pool_urlopen)
+            args["__recv"] = recv
             s = st.copy()
             s.log(node, "POOL-CALL")
             self.sites.append(Site("poolcall", node, s, args))
